@@ -31,18 +31,15 @@ def run(ctx):
     scratch = fc.Scratch(ctx)
     try:
         t = [time.time()]
-        a = fc.run_sets(ctx, tool, scratch, "c18", ctx.pick(20000, 1200000), "c18a", max_steps=5)
+        a = fc.run_sets(ctx, tool, scratch, "c18", ctx.pick(20000, 500000), "c18a", max_steps=5)
         t.append(time.time())
-        b = fc.run_projects(ctx, tool, cli, scratch, ctx.pick(240, 6000), "c18b", c19=False, nversions=5)
+        b = fc.run_projects(ctx, tool, cli, scratch, ctx.pick(240, 3000), "c18b", c19=False, nversions=5)
         t.append(time.time())
-        c = fc.run_cli_cases(ctx, cli, scratch, ctx.pick(60, 1500), "c18c", "C18")
+        c = fc.run_cli_cases(ctx, cli, scratch, ctx.pick(60, 700), "c18c", "C18")
         t.append(time.time())
     finally:
         scratch.cleanup()
     v = fc.violations_from("C18", a["findings"], "sets") + fc.violations_from("C18", b["findings"], "session")
-    bad_cross = [x for x in b["cross"] if not x["ok"] or x["diffs"]]
-    if bad_cross:
-        raise runner.Inconclusive(f"in-process session and real CLI disagree for the same sources ({len(bad_cross)} cases), e.g. {bad_cross[0]}")
     cli_stats = collections.Counter()
     cli_fps = set()
     samples = a["samples"][:2]
@@ -53,6 +50,9 @@ def run(ctx):
             cli_fps.add(r["fingerprint"])
         if r["sample"] and len(samples) < 4 and r["nontrivial"]:
             samples.append(r["sample"])
+    bad_cross = [x for x in b["cross"] if not x["ok"] or x["diffs"]]
+    if bad_cross and not v:
+        raise runner.Inconclusive(f"in-process session and real CLI disagree for the same sources ({len(bad_cross)} cases), e.g. {bad_cross[0]}")
     b_nontrivial = {x["id"] for x in b["cases"] if sum(1 for ok in x["valid"] if ok) >= 2}
     for x in b["cases"]:
         if x["id"] in b_nontrivial and len(samples) < 5:
